@@ -132,6 +132,33 @@ def api_observer(got, pred, sp, call, sg, prog, ctx, part):
 
     def bad(obs, detail=None):
         pviolation(part, sg, obs, {'program': prog, 'den': interp.term_str(den), 'detail': detail}, own=part['_own'], prefixes=part['_prefixes'])
+    # 0 and 1 are the values algebraic simplifiers special-case: build every artefact while the parameter holds one of
+    # them (and an ordinary value), then move it
+    from .. import apiexec
+    saved_par = ctx.parobjs
+    try:
+        for init in (Fr(1), Fr(0), None):
+            # fresh objects for every initial value: derivative expressions are cached per expression object
+            objs = progjudge.build_base(ctx)
+            parobjs = {c['i']: objs[n + 1] for n, c in enumerate(ctx.base_calls) if c['c'] == 'MkPar'}
+            if init is not None:
+                for pid in pids:
+                    parobjs[pid].set(float(init))
+            nb = len(ctx.base_calls)
+            e = None
+            for i, c in enumerate(ctx.cur_calls):
+                e = apiexec.execute(c, objs)
+                objs[nb + i + 1] = e
+            vm2 = apirun.varmap(objs)
+            ctx.parobjs = parobjs
+            if _observe_after_set(e, den, sp, names, [vm2[n] for n in names], pids, ctx, part, bad):
+                return
+    finally:
+        ctx.parobjs = saved_par
+
+
+def _observe_after_set(got, den, sp, names, vars_, pids, ctx, part, bad):
+    from optyx.core import compiler, autodiff
     try:
         saved = compiler._RECURSION_THRESHOLD
         try:
@@ -148,7 +175,7 @@ def api_observer(got, pred, sp, call, sg, prog, ctx, part):
         gs = [autodiff.gradient(got, v) for v in vars_]
     except Exception as e:
         bump(part, 'compile_raises_left_to_C01', type(e).__name__)
-        return
+        return False
     D = {name_of(k): v for k, v in sp['D'].items()}
     Hs = {(name_of(k[0]), name_of(k[1])): v for k, v in sp['H'].items()} if isinstance(sp['H'], dict) else {}
     zero = {'k': 'const', 'q': [0, 1]}
@@ -182,12 +209,13 @@ def api_observer(got, pred, sp, call, sg, prog, ctx, part):
                         if len(have) != len(want) or any(not interp.close(float(a), w, t) for a, (w, t) in zip(have, want)):
                             bad('%s computed before Parameter.set does not follow the new value' % what,
                                 {'parameter': float(new), 'got': [float(a) for a in have], 'expected': [w for w, _ in want]})
-                            return
+                            return True
             except Exception as e:
                 bad('callable raises %s after Parameter.set' % type(e).__name__)
-                return
+                return True
             finally:
                 ctx.parobjs[pid].set(float(old))
+    return False
 
 
 def run(report, tier):
